@@ -130,6 +130,13 @@ func (s *Server) ListStores(ctx context.Context, req *openfgav1.ListStoresReques
 		return nil, err
 	}
 
+	// A nil list means "no access control" (no filter). A non-nil empty list means the caller may list
+	// stores but has access to none of them: the datastores treat an empty ID list as "no filter", so
+	// answer here instead of leaking every store.
+	if storeIDs != nil && len(storeIDs) == 0 {
+		return &openfgav1.ListStoresResponse{Stores: []*openfgav1.Store{}}, nil
+	}
+
 	// even though we have the list of store IDs, we need to call ListStoresQuery to fetch the entire metadata of the store.
 	q := commands.NewListStoresQuery(s.datastore,
 		commands.WithListStoresQueryLogger(s.logger),
